@@ -42,11 +42,14 @@ Print Assumptions C14_add_frames.
 (* (2) the cycle check does not depend on the order in which Go ranges over the map *)
 Theorem C14_cycle_check_order :
   forall g g' : graph,
-    Permutation g g' -> NoDup (map fst g) ->
-    (forall kv, In kv g -> node_cycle (S (S (length g))) g (fst kv) [] <> None) ->
-    graph_has_cycle g' = graph_has_cycle g.
-Proof. exact cycle_check_order_independent. Qed.
+    Permutation g g' -> NoDup (map fst g) -> graph_has_cycle g' = graph_has_cycle g.
+Proof. exact cycle_check_order_independent'. Qed.
 Print Assumptions C14_cycle_check_order.
+
+(* and it always answers: the depth-first walk never exhausts its fuel, whatever the graph *)
+Theorem C14_cycle_check_total : forall g : graph, graph_has_cycle g <> None.
+Proof. exact cycle_check_total. Qed.
+Print Assumptions C14_cycle_check_total.
 
 (* (3) whatever the interleaving of steps, every job ends where it ends when run alone *)
 Theorem C14_schedule_independent_partial :
